@@ -14,22 +14,22 @@ import (
 // scheduler (or by the controlling goroutine while everything else is
 // quiescent), so their order is a function of the scheduler's decisions.
 type Event struct {
-	Seq      int        `json:"seq"`
-	T        int64      `json:"t"` // simulated ns since the epoch of the run
-	Gen      int        `json:"g"`
-	Kind     string     `json:"k"`
-	Obj      string     `json:"o,omitempty"`
-	Client   int        `json:"c,omitempty"`
-	Inv      int        `json:"inv,omitempty"`      // plugin invocation index of Obj (0-based, over the whole run)
-	Outcome  string     `json:"out,omitempty"`      // scripted outcome kind (plug-enter/plug-exit)
-	Deadline int64      `json:"deadline,omitempty"` // ctx deadline seen at plug-enter (ns since epoch)
-	CtxDone  bool       `json:"ctxdone,omitempty"`  // plug-exit: ctx was cancelled when the plugin returned
-	W        *ObjState  `json:"w,omitempty"`        // write: what was written
-	Op       string     `json:"op,omitempty"`       // api op / vault op
-	Err      string     `json:"err,omitempty"`
-	Plan     *PlanSnap  `json:"plan,omitempty"` // api-ret of wait/plan/status: the plan returned
-	Note     string     `json:"note,omitempty"`
-	Labels   []string   `json:"labels,omitempty"` // park: labels of operations that arrived since the last decision (sorted)
+	Seq      int       `json:"seq"`
+	T        int64     `json:"t"` // simulated ns since the epoch of the run
+	Gen      int       `json:"g"`
+	Kind     string    `json:"k"`
+	Obj      string    `json:"o,omitempty"`
+	Client   int       `json:"c,omitempty"`
+	Inv      int       `json:"inv,omitempty"`      // plugin invocation index of Obj (0-based, over the whole run)
+	Outcome  string    `json:"out,omitempty"`      // scripted outcome kind (plug-enter/plug-exit)
+	Deadline int64     `json:"deadline,omitempty"` // ctx deadline seen at plug-enter (ns since epoch)
+	CtxDone  bool      `json:"ctxdone,omitempty"`  // plug-exit: ctx was cancelled when the plugin returned
+	W        *ObjState `json:"w,omitempty"`        // write: what was written
+	Op       string    `json:"op,omitempty"`       // api op / vault op
+	Err      string    `json:"err,omitempty"`
+	Plan     *PlanSnap `json:"plan,omitempty"` // api-ret of wait/plan/status: the plan returned
+	Note     string    `json:"note,omitempty"`
+	Labels   []string  `json:"labels,omitempty"` // park: labels of operations that arrived since the last decision (sorted)
 }
 
 // Event kinds.
@@ -57,10 +57,10 @@ type release struct {
 }
 
 type parkedOp struct {
-	label   string
-	arrival uint64
-	gen     int
-	ch      chan release
+	label     string
+	arrival   uint64
+	gen       int
+	ch        chan release
 	delayed   bool // already delayed once: never delayed again
 	announced bool // its arrival has been logged
 }
